@@ -36,7 +36,8 @@ Kernel operations (the model predicts the value; byte strings are hex, `-` = emp
                                         the implementation's line (clauses (a), (b))
 
 Exploration operations (third-party parsers in the loop; the model only states the property: the call
-returns): `file …` → `set`; `api <path> <body>`, `lookup …`, `symcreate …`, `debugid …`, `bigsym …` → `fine`.
+returns): `file …` → `set`; `api <path> <body>`, `lookup …`, `symcreate …`, `debugid …`, `bigsym …` → `fine`
+(`debugid <s>` with `s` a non-empty string of hex digits → `id-ok | id-err`, predicted by `BP.debugIdOk`).
 The implementation prints `panic`, `hang`, `badjson`, `notobject`, `badshape <why>`, `short-listing …`,
 `neg-offset`, `empty-frames`, `slow …` when the property is violated; the runner prints `crash:<how>` for a
 case whose child process died (stack overflow, out of memory, abort).
@@ -157,6 +158,12 @@ def modelOp (l : String) : String :=
   | "api" :: _ => "fine"
   | "lookup" :: _ => "fine"
   | "symcreate" :: _ => "fine"
+  | ["debugid", s] =>
+    -- for a non-empty string of hex digits the outcome of the third-party `DebugId::from_breakpad` is modelled
+    -- (`BP.debugIdOk`, the model the module-info parse of `.symindex` files relies on); otherwise only "returns"
+    let bs := hexBytes s
+    if !bs.isEmpty && bs.all (fun b => (BP.hexVal b).isSome) then (if BP.debugIdOk bs then "id-ok" else "id-err")
+    else "fine"
   | "debugid" :: _ => "fine"
   | "bigsym" :: _ => "fine"
   | _ => "bad-op"
@@ -191,6 +198,7 @@ def judge (ops impl : List String) : Bool × String :=
           | _, _ => false) then
         (false, s!"[not-json-response] op {k} ({kind}): the response text is not a JSON object that is a result of the endpoint or carries an error message (RFC 8259 recogniser)")
       else
+      if kind == "debugid" && (r == "id-ok" || r == "id-err") then go (k + 1) os rs else
       if (kind == "api" || kind == "lookup" || kind == "symcreate" || kind == "debugid" || kind == "bigsym") && r ≠ "fine" then
         (false, s!"[unexpected] op {k} ({kind}): outcome {r}")
       else go (k + 1) os rs
